@@ -112,7 +112,14 @@ inline Plan Gen(uint64_t seed)
       const bool inBatch = (useBatch)&&(wl.oneIn(6));
       const std::string sendPfx = (inBatch ? "bsend " : "send ") + I(c) + " ";
       const uint32_t k = wl.below(100);
-      if (k < 30) p.push_back(sendPfx + SetDataCmd(g, wl));
+      if (k < 30)
+      {
+         const std::string cmd = SetDataCmd(g, wl); p.push_back(sendPfx + cmd);
+         // a several-node SETDATA (whose one update may carry sets AND filter-exit removals) is sometimes followed at once by a superceding re-set of one of its nodes:
+         // the server then prunes that node from the still-queued update, whose other entries must survive
+         const std::vector<std::string> ct = Split(cmd);
+         if ((ct.size() >= 4)&&(wl.oneIn(3))) {const std::string & a = ct[2 + wl.below((uint32_t)(ct.size()-2))]; const size_t eq = a.find('='); if (eq != std::string::npos) p.push_back(sendPfx + "setdata s " + a.substr(0, eq) + "=" + U(g.val++) + ":" + I(wl.below(4)));}
+      }
       else if (k < 40) p.push_back(sendPfx + RmDataCmd(wl, g.quietOk));
       else if (k < 58)
       {
